@@ -99,7 +99,8 @@ CycleRec(o) ==
     [family |-> "cycle", obj |-> o,
      cycle   |-> [p \in 1 .. np |-> SingleCycle(g, ESet(m, p - 1))],
      path    |-> [p \in 1 .. np |-> SinglePath(g, ESet(m, p - 1))],
-     touched |-> [p \in 1 .. np |-> Mask(Touched(g, ESet(m, p - 1)))]]
+     touched |-> [p \in 1 .. np |-> Mask(Touched(g, ESet(m, p - 1)))],
+     linegraph |-> SetToSeq(LineGraphPairs(g))]
 
 (* C05: division_connected.  Labeling number L in base R: vertex v has label digit v.   *)
 Lab(n, R, L) == [v \in 0 .. n - 1 |-> (L \div (R ^ v)) % R]
